@@ -183,30 +183,43 @@ impl Worker {
         }
     }
 
-    /// Arms the in-process watchdog: a case that runs longer than `ms` first gets its halt flag
-    /// raised (if registered) and, 1.5 s later, the process reports `H` and exits with status 3.
+    /// Arms the in-process watchdog. The limit is on the CPU time the process has used since the case
+    /// began (a machine loaded by other work must not turn a descheduled worker into a "hang"), with
+    /// a wall-clock backstop of ten times the limit for a case that blocks without using the CPU.
+    /// A case over the limit first gets its halt flag raised (if registered) and, 1.5 s (CPU, or
+    /// 15 s wall) later, the process reports `H` and exits with status 3.
     pub fn set_case_limit_ms(&mut self, ms: u64) {
         let first = self.watch.limit_ms.swap(ms, Ordering::SeqCst) == 0;
         if first && ms > 0 {
             let slot = self.watch.clone();
             let t0 = process_start();
-            std::thread::spawn(move || loop {
-                std::thread::sleep(Duration::from_millis(50));
-                let cur = slot.cur.load(Ordering::SeqCst);
-                if cur == 0 {
-                    continue;
-                }
-                let since = slot.since.load(Ordering::SeqCst);
-                let now = t0.elapsed().as_millis() as u64;
-                let limit = slot.limit_ms.load(Ordering::SeqCst);
-                if now.saturating_sub(since) > limit {
-                    if let Some(h) = slot.halt.lock().unwrap().as_ref() {
-                        h.store(true, Ordering::SeqCst);
+            std::thread::spawn(move || {
+                // (case, cpu ms at the first poll that saw this case)
+                let mut seen: (u64, u64) = (0, 0);
+                loop {
+                    std::thread::sleep(Duration::from_millis(50));
+                    let cur = slot.cur.load(Ordering::SeqCst);
+                    if cur == 0 {
+                        continue;
                     }
-                }
-                if now.saturating_sub(since) > limit + 1500 && slot.cur.load(Ordering::SeqCst) == cur {
-                    emit(&format!("H {}", cur - 1));
-                    std::process::exit(3);
+                    let cpu_now = process_cpu_ms();
+                    if seen.0 != cur {
+                        seen = (cur, cpu_now);
+                        continue;
+                    }
+                    let since = slot.since.load(Ordering::SeqCst);
+                    let wall = (t0.elapsed().as_millis() as u64).saturating_sub(since);
+                    let cpu = cpu_now.saturating_sub(seen.1);
+                    let limit = slot.limit_ms.load(Ordering::SeqCst);
+                    if cpu > limit || wall > limit * 10 {
+                        if let Some(h) = slot.halt.lock().unwrap().as_ref() {
+                            h.store(true, Ordering::SeqCst);
+                        }
+                    }
+                    if (cpu > limit + 1500 || wall > limit * 10 + 15_000) && slot.cur.load(Ordering::SeqCst) == cur {
+                        emit(&format!("H {}", cur - 1));
+                        std::process::exit(3);
+                    }
                 }
             });
         }
@@ -334,6 +347,23 @@ impl Worker {
         emit("D");
         let _ = std::fs::remove_dir_all(&self.scratch);
     }
+}
+
+/// user + system CPU time of this process in milliseconds (from /proc/self/stat, 10 ms ticks)
+pub fn process_cpu_ms() -> u64 {
+    let stat = match std::fs::read_to_string("/proc/self/stat") {
+        Ok(s) => s,
+        Err(_) => return process_start().elapsed().as_millis() as u64,
+    };
+    // fields after the command name (which may contain spaces, so cut at the last ')')
+    let rest = match stat.rfind(')') {
+        Some(i) => &stat[i + 1..],
+        None => return process_start().elapsed().as_millis() as u64,
+    };
+    let f: Vec<&str> = rest.split_whitespace().collect();
+    // rest[0] is field 3 (state); utime and stime are fields 14 and 15
+    let ticks = f.get(11).and_then(|x| x.parse::<u64>().ok()).unwrap_or(0) + f.get(12).and_then(|x| x.parse::<u64>().ok()).unwrap_or(0);
+    ticks * 10
 }
 
 pub fn process_start() -> &'static Instant {
